@@ -29,6 +29,11 @@ var extraC11Exec = map[string]h.ExecFn{
 	"go.adnl.concurrent": goAdnlConcurrent,
 	"go.adnl.coalesced":  goAdnlCoalesced,
 	"go.adnl.magics":     goAdnlMagics,
+	"adnl.keyid":         exAdnlKeyID,
+	"adnl.scalar":        exAdnlScalar,
+	"adnl.tomont":        exAdnlToMont,
+	"go.adnl.sharedkey":  goAdnlSharedKey,
+	"go.adnl.newkeys":    goAdnlNewKeys,
 	"adnl.reader":        func(a []string) string { return "bad-op" }, // model-only op (asked by go.adnl.magics)
 }
 
